@@ -36,6 +36,7 @@ class SpyControl:
         self.fired = []          # (n, op, path)
         self.closed_handles = 0
         self.opened_handles = 0
+        self.on_call = None      # callable(spy, op, path) for checks that tag calls themselves
 
     def session_of(self, spy):
         c = spy.connection
@@ -52,6 +53,8 @@ class SpyControl:
         sess = self.session_of(spy)
         t = asyncio.get_running_loop().time()
         self.calls.append((n, sess, op, None if path is None else str(path), round(t, 6)))
+        if self.on_call is not None:
+            self.on_call(spy, op, path)
         if self.delay is not None:
             d = self.delay(op, path, n)
             if d:
@@ -177,6 +180,8 @@ def make_spy(base, ctl):
         async def rename(self, source, destination):
             await ctl.before(self, "rename", source)
             ctl.calls.append((ctl.n, ctl.session_of(self), "rename_to", str(destination), None))
+            if ctl.on_call is not None:
+                ctl.on_call(self, "rename_to", destination)
             return await base.rename(self, source, destination)
 
     Spy.__name__ = "Spy" + base.__name__
